@@ -14,6 +14,7 @@ From V Require Import Prelude.Base Prelude.PyInt Prelude.PySlice Prelude.PyStr.
 From V Require Import Model.Types Model.Crypto Model.Sym Model.Chain Model.KeyId Model.Gkdi Model.Kek Model.SecDesc.
 From V Require Import Model.Asn1 Model.Pkcs7 Model.Blob Model.CryptoWrap Model.Interval Model.Client.
 From V Require Import Spec.GkdiSpec Spec.KekSpec.
+From V Require Import gen.K_e2e.
 From V Require Import Proofs.BlobPkcs7 Proofs.BlobMain Proofs.C01Lib Proofs.C01.
 From V Require Proofs.C02 Proofs.GkdiLib Proofs.GkdiStructs Proofs.Kek.
 
@@ -256,3 +257,9 @@ Proof.
   destruct (Kek.agree_dh c h top es ep rnd seed kl p g H1 H2 H3 H4 H5 H6 H7 H8 H9 H10 H11 H12 H13 H14 H15 H16 H17 H18 H19 H20 H21 H22) as (kid & E & K & _).
   eauto.
 Qed.
+
+(* the call sites of the draws and the flow of their results, regenerated from _crypto.cek_generate and
+   _client._encrypt_blob on every run: AESGCM.generate_key(256) then os.urandom(12), returned unmodified; the CEK
+   flows only into content_encrypt and cek_encrypt, the nonce only into the GCM parameters, (kek, key_identifier) = key.new_kek() *)
+Lemma draw_sites : k_cek_generate_draws = (256, 12) /\ k_encrypt_blob_flow = true.
+Proof. split; reflexivity. Qed.
